@@ -323,6 +323,23 @@ def field_mutation_sites(F, adt_id, field, bodies=None):
                         live = b.live_blocks()
                     if bb in live:
                         out.append((b, bb, hit, s[3]))
+                        if hit == "&mut" and len(s[1]) == 1:
+                            # `mem::replace(&mut x.field, v)` / swap / take: an assignment through the borrow
+                            al = {s[1][0]}
+                            grew = True
+                            while grew:
+                                grew = False
+                                for bl2 in b.blocks:
+                                    for s2 in bl2["s"]:
+                                        if s2[0] == "A" and len(s2[1]) == 1 and s2[1][0] not in al:
+                                            r2 = s2[2]
+                                            src = r2[2] if r2[0] == "ref" else (op_place(r2[1]) if r2[0] == "use" else None)
+                                            if src is not None and src[0] in al and all(x == "*" for x in src[1:]):
+                                                al.add(s2[1][0])
+                                                grew = True
+                            for c in b.calls:
+                                if c.f in ("core::mem::replace", "core::mem::swap", "core::mem::take") and any(op_local(a) in al and len(op_place(a)) == 1 for a in c.args if op_place(a) is not None):
+                                    out.append((b, c.bb, "assign-replace", c.line))
             t = bl["term"]
             if t["t"] == "call" and len(t["dest"]) > 1 and any(isinstance(p, list) and p[0] == "f" and p[2] == field for p in t["dest"][1:]):
                 if (adt_id, field) in place_field_owners(F, b, t["dest"]):
